@@ -47,6 +47,14 @@ type receiver struct {
 	docs    [][]byte // every POSTed body, in arrival order
 	records int      // bodies that carry a "Records" member
 	nconn   int
+
+	// backlog lane: a receiver that needs `delay` per record, one record at a time. A delivery that has
+	// already waited a second in the queue is not delayed further (the gateway gives up after 3 s: the
+	// harness must never be the reason for a lost delivery).
+	delay       time.Duration
+	slowMu      sync.Mutex
+	inflight    int
+	maxInflight int
 }
 
 func newReceiver() (*receiver, error) {
@@ -56,9 +64,24 @@ func newReceiver() (*receiver, error) {
 	}
 	r := &receiver{ln: ln}
 	r.srv = &http.Server{Handler: http.HandlerFunc(func(w http.ResponseWriter, q *http.Request) {
+		t0 := time.Now()
+		r.mu.Lock()
+		r.inflight++
+		if r.inflight > r.maxInflight {
+			r.maxInflight = r.inflight
+		}
+		r.mu.Unlock()
 		b, _ := io.ReadAll(io.LimitReader(q.Body, 8<<20))
 		q.Body.Close()
+		if r.delay > 0 {
+			r.slowMu.Lock()
+			if time.Since(t0) < time.Second {
+				time.Sleep(r.delay)
+			}
+			r.slowMu.Unlock()
+		}
 		r.mu.Lock()
+		r.inflight--
 		r.docs = append(r.docs, b)
 		if bytes.Contains(b, []byte(`"Records"`)) {
 			r.records++
@@ -94,6 +117,12 @@ func (r *receiver) snapshot() [][]byte {
 }
 
 func (r *receiver) close() { r.srv.Close() }
+
+func (r *receiver) peak() int {
+	r.mu.Lock()
+	defer r.mu.Unlock()
+	return r.maxInflight
+}
 
 func (r *receiver) conns() int {
 	r.mu.Lock()
@@ -319,6 +348,7 @@ type roundCfg struct {
 }
 
 type round struct {
+	burst   string // backlog lane: burst size class appended to missing signatures
 	started time.Time
 	c       *ev.Ctx
 	cfg     roundCfg
@@ -1057,7 +1087,11 @@ func (rd *round) judge(workers []*worker, docs [][]byte) judgeStats {
 			c.Inconclusive(fmt.Sprintf("%d record(s) outstanding, but the harness process was starved (a 20 ms sleep overslept by %d ms)", len(missing), stall.Milliseconds()))
 		default:
 			for _, x := range missing {
-				viol("missing:"+x.Kind, map[string]any{"expected": x, "received_records": st.received, "gateway_log": logLines,
+				sig := "missing:" + x.Kind
+				if rd.burst != "" {
+					sig += ":backlog" + rd.burst
+				}
+				viol(sig, map[string]any{"expected": x, "received_records": st.received, "expected_records": st.expected, "receiver_peak_concurrent_deliveries": rd.rcv.peak(), "gateway_log": logLines,
 					"harness_stall_ms": stall.Milliseconds(), "receiver_connections": rd.rcv.conns()})
 			}
 		}
@@ -1219,6 +1253,193 @@ func runRound(c *ev.Ctx, cfg roundCfg, slots []slot) {
 		c.Sample(map[string]any{"round": cfg.id, "filter": cfg.filter.name, "clients": cfg.workers, "hook": cfg.hook, "requests": nreq,
 			"expected_events": st.expected, "received_records": st.received, "matched": st.matched, "first_expected": workers[0].exps[0]})
 	}
+	if cfg.race {
+		g := env.GWs[0]
+		g.Stop()
+		reps := g.RaceReports()
+		c.Add("race_reports", len(reps))
+		for _, rep := range reps {
+			sig, inV := raceSig(rep)
+			if inV {
+				c.Violation("race:"+sig, cfg.id, map[string]any{"report": trunc(rep, 3500)})
+			} else {
+				c.Observe("race report entirely inside dependencies: " + sig)
+			}
+		}
+	}
+}
+
+// ---- backlog lane -----------------------------------------------------------------
+//
+// Hundreds of notifications outstanding at once: a receiver that takes a few milliseconds per record
+// (serialised) and either ONE DeleteObjects request naming 300 / 600 / 1000 keys or 16+ clients each doing
+// a rapid run of puts and deletes. Same ledger; a shortfall is missing:<kind>:backlog<burst class>.
+
+type backlogCfg struct {
+	id      string
+	mode    string // "batch" | "clients"
+	keys    int    // batch: keys named by the one DeleteObjects request
+	clients int
+	perCl   int // clients mode: puts (and then deletes) per client
+	delay   time.Duration
+	hook    string
+	hookEnv []string
+	race    bool
+	seed    int64
+}
+
+func burstClass(n int) string {
+	switch {
+	case n > 768:
+		return ">768"
+	case n > 512:
+		return ">512"
+	case n > 256:
+		return ">256"
+	}
+	return "<=256"
+}
+
+func backlogKey(client, i int) string {
+	return fmt.Sprintf("c%02d/k%04d-", client, i) + strings.Repeat(string(rune('a'+(client+i)%26)), 6+(i*7+client)%40)
+}
+
+func runBacklog(c *ev.Ctx, cfg backlogCfg) {
+	rcv, err := newReceiver()
+	if err != nil {
+		c.Inconclusive("webhook receiver: " + err.Error())
+		return
+	}
+	defer rcv.close()
+	rcv.delay = cfg.delay
+	env, err := fx.New("c19bl", gw.Config{Webhook: rcv.url(), Race: cfg.race, Env: cfg.hookEnv}, 1)
+	if err != nil {
+		c.Inconclusive("gateway start: " + trunc(err.Error(), 200))
+		return
+	}
+	defer env.Close()
+	rd := &round{c: c, env: env, rcv: rcv, root: env.Client(0), started: time.Now(),
+		cfg: roundCfg{id: cfg.id, filter: filterClass{"none", nil}, workers: cfg.clients, hook: cfg.hook, race: cfg.race, seed: cfg.seed}}
+	const bucket = "backlog-bucket"
+	if r := rd.root.CreateBucket(bucket); !r.OK() {
+		c.Inconclusive("create bucket: " + r.String())
+		return
+	}
+	workers := make([]*worker, cfg.clients)
+	for i := range workers {
+		workers[i] = &worker{rd: rd, w: i, root: env.Client(0), bucket: bucket, missing: "backlog-missing",
+			rng: rand.New(rand.NewSource(cfg.seed*131 + int64(i))), supp: map[triple]*reqRec{}, failed: map[triple]*reqRec{}}
+		workers[i].user = workers[i].root
+	}
+	small := func(w *worker, key string) bool {
+		body := []byte(fmt.Sprintf("b%d-%s", w.w, key[:8]))
+		r, rec := w.do("put", "ok", w.root, &s3c.Req{Method: "PUT", Path: s3c.ObjPath(bucket, key), Body: body}, bucket, []string{key})
+		if r.OK() {
+			w.expect(rec, "put", bucket, key, int64(len(body)), true, r.Header.Get("Etag"), "")
+		}
+		return r.OK()
+	}
+	var wg sync.WaitGroup
+	burst := 0
+	switch cfg.mode {
+	case "batch":
+		// create the objects quickly with all clients, then ONE request removes them all
+		per := (cfg.keys + cfg.clients - 1) / cfg.clients
+		keys := make([][]string, cfg.clients)
+		for i, w := range workers {
+			wg.Add(1)
+			go func(i int, w *worker) {
+				defer wg.Done()
+				for k := 0; k < per && i*per+k < cfg.keys; k++ {
+					key := backlogKey(i, k)
+					if w.transport != "" || !small(w, key) {
+						return
+					}
+					keys[i] = append(keys[i], key)
+				}
+			}(i, w)
+		}
+		wg.Wait()
+		var all []string
+		for _, l := range keys {
+			all = append(all, l...)
+		}
+		if len(all) != cfg.keys {
+			c.Inconclusive("backlog: could not create all objects of the batch")
+			return
+		}
+		rd.burst = burstClass(len(all))
+		burst = len(all)
+		// let the put notifications drain first: the burst under test is the one of the batch delete
+		if !rd.settle(len(all)) {
+			c.Inconclusive("webhook receiver did not become quiescent within the watchdog (backlog, after the puts)")
+			return
+		}
+		workers[0].batchDelete(workers[0].root, "ok", bucket, all, deleteXML(all))
+	case "clients":
+		rd.burst = burstClass(cfg.clients * cfg.perCl)
+		burst = cfg.clients * cfg.perCl
+		for i, w := range workers {
+			wg.Add(1)
+			go func(i int, w *worker) {
+				defer wg.Done()
+				var mine []string
+				for k := 0; k < cfg.perCl && w.transport == ""; k++ {
+					key := backlogKey(i, k)
+					if small(w, key) {
+						mine = append(mine, key)
+					}
+				}
+				for _, key := range mine {
+					if w.transport != "" {
+						return
+					}
+					w.deleteObject(w.root, "ok", bucket, key)
+				}
+			}(i, w)
+		}
+		wg.Wait()
+	}
+	nreq, nexp := 0, 0
+	for _, w := range workers {
+		nreq += len(w.reqs)
+		nexp += len(w.exps)
+		if w.transport != "" {
+			if _, cr := env.Dead(); cr != nil {
+				c.Observe("gateway died during the backlog workload: " + cr.Message + " " + crashFrame(cr))
+			}
+			c.Inconclusive("transport error, outcome of a request unknown (" + cfg.id + ")")
+			return
+		}
+	}
+	c.Add("requests", nreq)
+	if !rd.settle(nexp) {
+		c.Inconclusive("webhook receiver did not become quiescent within the watchdog (backlog)")
+		return
+	}
+	if _, cr := env.Dead(); cr != nil {
+		c.Observe("gateway died: " + cr.Message + " " + crashFrame(cr))
+		c.Inconclusive("gateway died before the ledger could be closed (" + cfg.id + ")")
+		return
+	}
+	st := rd.judge(workers, rcv.snapshot())
+	c.Eval(nreq)
+	c.Add("events_observed", st.received)
+	c.Add("events_expected", st.expected)
+	c.Add("events_matched", st.matched)
+	c.Add("events_corrupted", st.corrupted)
+	c.Add("backlog_rounds_judged", 1)
+	c.Set("backlog_round/"+cfg.id, map[string]any{"burst_changes": burst, "clients": cfg.clients, "receiver_delay": cfg.delay.String(), "hook": cfg.hook, "race": cfg.race,
+		"requests": nreq, "expected_events": st.expected, "received_records": st.received, "matched": st.matched, "peak_concurrent_deliveries": rcv.peak()})
+	lane := ""
+	if cfg.race {
+		lane = "|race"
+	}
+	if st.expected > 0 && st.received > 0 {
+		c.Distinct(fmt.Sprintf("backlog|%s|burst%s|clients=%d|receiver=%s|hook=%s%s", cfg.mode, rd.burst, cfg.clients, cfg.delay, cfg.hook, lane))
+	}
+	c.Sample(map[string]any{"round": cfg.id, "mode": cfg.mode, "burst_changes": burst, "clients": cfg.clients, "receiver_delay": cfg.delay.String(), "hook": cfg.hook,
+		"requests": nreq, "expected_events": st.expected, "received_records": st.received, "matched": st.matched, "peak_concurrent_deliveries": rcv.peak()})
 	if cfg.race {
 		g := env.GWs[0]
 		g.Stop()
@@ -1405,10 +1626,38 @@ func Run(c *ev.Ctx) int {
 		}(j)
 	}
 	wg.Wait()
+	// backlog lane: rounds run one after the other (each is a burst on its own; parallel bursts would only
+	// starve each other)
+	var bl []backlogCfg
+	blRng := c.Rng("backlog")
+	addBL := func(b backlogCfg) {
+		b.id = fmt.Sprintf("backlog/%s/%d", b.mode, len(bl))
+		b.seed = blRng.Int63n(1 << 40)
+		bl = append(bl, b)
+	}
+	if c.Thorough() {
+		addBL(backlogCfg{mode: "batch", keys: 300, clients: 16, delay: 2 * time.Millisecond, hook: "none"})
+		addBL(backlogCfg{mode: "batch", keys: 600, clients: 16, delay: 2 * time.Millisecond, hook: "none"})
+		addBL(backlogCfg{mode: "batch", keys: 1000, clients: 24, delay: time.Millisecond, hook: "none"})
+		addBL(backlogCfg{mode: "batch", keys: 600, clients: 16, delay: 0, hook: "event.send=20ms", hookEnv: []string{"VERIF_HOOK_DELAY=event.send=20"}})
+		addBL(backlogCfg{mode: "clients", clients: 16, perCl: 40, delay: 2 * time.Millisecond, hook: "event.send=10ms", hookEnv: []string{"VERIF_HOOK_DELAY=event.send=10"}})
+		addBL(backlogCfg{mode: "clients", clients: 32, perCl: 40, delay: 2 * time.Millisecond, hook: "event.send=10ms", hookEnv: []string{"VERIF_HOOK_DELAY=event.send=10"}})
+		addBL(backlogCfg{mode: "clients", clients: 24, perCl: 50, delay: time.Millisecond, hook: "none"})
+		addBL(backlogCfg{mode: "batch", keys: 600, clients: 16, delay: 2 * time.Millisecond, hook: "none", race: true})
+		addBL(backlogCfg{mode: "clients", clients: 16, perCl: 30, delay: 2 * time.Millisecond, hook: "event.send=10ms", hookEnv: []string{"VERIF_HOOK_DELAY=event.send=10"}, race: true})
+	} else {
+		addBL(backlogCfg{mode: "batch", keys: 600, clients: 16, delay: 2 * time.Millisecond, hook: "none"})
+		addBL(backlogCfg{mode: "clients", clients: 24, perCl: 30, delay: 2 * time.Millisecond, hook: "event.send=10ms", hookEnv: []string{"VERIF_HOOK_DELAY=event.send=10"}})
+	}
+	for _, b := range bl {
+		if c.Want(b.id) {
+			runBacklog(c, b)
+		}
+	}
 	if c.Want("nilkey") {
 		nilKeyProbe(c)
 	}
 	kinds := append([]string{}, okKinds...)
 	sort.Strings(kinds)
-	return c.Finish("conservation ledger per round: one gateway with --event-webhook-url (+ generated --event-filter file), 4-16 concurrent clients with own buckets (distinct name lengths) and keys of round-unique lengths running "+strings.Join(kinds, ", ")+" and failing twins (missing bucket, bad digest, denied user, malformed XML, missing key/source, bad part); expected multiset from acknowledged requests x filter vs records received after quiescence; event.send delay / PRNG hook delays; race lane on a -race gateway. distinct = (operation kind, ok|failure class, filter class, clients[, race]) in a judged round with >= 1 expected and received event", 60)
+	return c.Finish("conservation ledger per round: one gateway with --event-webhook-url (+ generated --event-filter file), 4-16 concurrent clients with own buckets (distinct name lengths) and keys of round-unique lengths running "+strings.Join(kinds, ", ")+" and failing twins (missing bucket, bad digest, denied user, malformed XML, missing key/source, bad part); expected multiset from acknowledged requests x filter vs records received after quiescence; event.send delay / PRNG hook delays; race lane on a -race gateway; backlog lane: a receiver needing 1-2 ms per record (serialised) and one DeleteObjects naming 300/600/1000 keys or 16-32 clients in a rapid run of puts and deletes (hundreds of deliveries outstanding at once; shortfall = missing:<kind>:backlog<burst class>). distinct = (operation kind, ok|failure class, filter class, clients[, race]) in a judged round with >= 1 expected and received event", 60)
 }
